@@ -145,13 +145,13 @@ PLACES = [('/v/.Trash-1000', '/v/d'), ('/v/.Trash/1000', '/v/e'), ('/h/.local/sh
 def _case(pat, eset, shift, dupe):
     with rt.untraced():
         rt.begin((PATTERNS[pat], SETS[eset], shift, dupe))
-        nodes = [W.d('/h'), W.d('/v/.Trash', 0o1777), W.f('/v/keep', 'KEEP', 0o644, 800)]
+        nodes = [W.d('/h'), W.d('/v/.Trash', 0o1777), W.f('/v/keep', 'KEEP', 0o644, 800)] + K.sentinels('/v/out')
         entries = []
         for j, ni in enumerate(SETS[eset]):
             td, od = PLACES[(j + shift) % 4]
             loc = od + '/' + NAMES[ni]
             pv = loc if td.startswith('/h') else loc[len('/v/'):]
-            nodes += K.trashed(td, 'e%d' % j, K.quote(pv), '2020-01-01T00:00:00', 'dir' if j == 1 else 'file', 2000 + 20 * j)
+            nodes += K.trashed(td, 'e%d' % j, K.quote(pv), '2020-01-01T00:00:00', K.KINDS[(j + shift) % 6], 2000 + 20 * j)
             entries.append((td, 'e%d' % j, loc))
             if dupe and j == 0:
                 td2, od2 = PLACES[(j + shift + 1) % 4]
